@@ -204,6 +204,39 @@ theorem C18_has_system_after_add (b : DispatcherBuilder) (tag : SysTag) (name : 
         · have : (name == q) = false := by simpa using fun h => hq h.symm
           simp [lookup, this, hq, hn]
 
+/-! ### a registration that fails inside the user's own callback -/
+
+/-- when `accessor()` / `running_time()` of the system being added panics, no stage table and no
+thread-local list changes; the id is consumed -/
+theorem C18_callback_panic_frame (b : DispatcherBuilder) (name : String) (dep : List String) :
+    (b.addCallbackPanics name dep).1.stagesBuilder = b.stagesBuilder ∧
+    (b.addCallbackPanics name dep).1.threadLocal = b.threadLocal ∧
+    (b.addCallbackPanics name dep).1.currentId = b.currentId + 1 := by
+  unfold addCallbackPanics
+  simp only []
+  cases resolve b.map dep with
+  | error x => exact ⟨rfl, rfl, rfl⟩
+  | ok ids =>
+    simp only []
+    split
+    · split <;> exact ⟨rfl, rfl, rfl⟩
+    · exact ⟨rfl, rfl, rfl⟩
+
+/-- such a registration is rejected by the builder exactly when `add` would have rejected it, with
+the same panic — otherwise it gets as far as the callback -/
+theorem C18_callback_panic_same_rejections (b : DispatcherBuilder) (tag : SysTag) (name : String)
+    (dep : List String) (d : Decl) (p : BuildPanic) :
+    (b.addCallbackPanics name dep).2 = some p ↔ (b.add tag name dep d).2 = some p := by
+  unfold addCallbackPanics add
+  simp only []
+  cases resolve b.map dep with
+  | error x => simp
+  | ok ids =>
+    simp only []
+    split
+    · split <;> simp
+    · simp
+
 end DispatcherBuilder
 end Shred
 
@@ -308,3 +341,5 @@ end Shred
 #print axioms Shred.C18_group_capacity_any_builder
 #print axioms Shred.DispatcherBuilder.C18_queries_predict_add
 #print axioms Shred.DispatcherBuilder.C18_has_system_after_add
+#print axioms Shred.DispatcherBuilder.C18_callback_panic_frame
+#print axioms Shred.DispatcherBuilder.C18_callback_panic_same_rejections
